@@ -514,6 +514,36 @@ def m_c01(out, base) -> list[Violation]:
     return vs
 
 
+# ---------------------------------------------------------------------------------------------- C11
+def m_c11(out) -> list[Violation]:
+    """at every durable commit: two stages sharing a mutex key are never RUNNING together; at most one stage of a
+    deferred-choice group ever leaves NOT_STARTED for RUNNING"""
+    vs = []
+    specs = spec_map(out)
+    st = {ref: "NOT_STARTED" for ref in specs}
+    started = {}
+    for row in out["audit"]:
+        if row["kind"] != "stage":
+            continue
+        ref = ref_of(out, row["ent"])
+        st[ref] = row["new"]
+        sp = specs.get(ref, {})
+        if row["new"] == "RUNNING" and sp.get("mutex") is not None:
+            both = [r for r, x in st.items() if x == "RUNNING" and specs.get(r, {}).get("mutex") == sp["mutex"]]
+            if len(both) > 1:
+                vs.append(Violation(what=f"stages {sorted(both)} share mutex {sp['mutex']!r} and are RUNNING together",
+                                    signature="mutex-two-running", replay=_replay(out)))
+                break
+        if row["old"] == "NOT_STARTED" and row["new"] == "RUNNING" and sp.get("choice") is not None:
+            g = started.setdefault(sp["choice"], set())
+            g.add(ref)
+            if len(g) > 1:
+                vs.append(Violation(what=f"stages {sorted(g)} of deferred-choice group {sp['choice']!r} both started",
+                                    signature="choice-two-winners", replay=_replay(out)))
+                break
+    return vs
+
+
 # ---------------------------------------------------------------------------------------------- C18
 def m_c18(out) -> list[Violation]:
     """one resume per signal: the suspending task is executed at most once plus once per signal sent (a signal
